@@ -379,11 +379,13 @@ def Outer.adviceClear (o : Outer) : Bool :=
   | some b => b.isClearText
   | none => false
 
-/-- `outerHasAttrs`: the Response-level assertion carries an attribute statement (not under PEFIM). -/
-def clearOf (outerHasAttrs : Bool) (w : Wire) : Clear :=
+/-- `outerHasAttrs` / `adviceHasAttrs`: the Response-level assertion / the advice assertion carries attribute
+    values (a content-shape parameter: an empty identity gives no attribute statement; under PEFIM the values
+    live in the advice assertion). -/
+def clearOf (outerHasAttrs adviceHasAttrs : Bool) (w : Wire) : Clear :=
   match w.body with
   | .sealed _ _ _ => ⟨false, false, false, false, false⟩
-  | .clear o | .wrapped o => ⟨true, o.adviceClear, true, outerHasAttrs, o.adviceClear⟩
+  | .clear o | .wrapped o => ⟨true, o.adviceClear, true, outerHasAttrs, adviceHasAttrs && o.adviceClear⟩
 
 /-! ### the recipient -/
 
